@@ -53,6 +53,12 @@ CLAIMS["C22"] = {
     "note": "Trusted: Kani/CBMC; the vcoll container model (differentially checked against std at size <= 2); the paper step from single-key laws + frame property to multi-key maps. Only `use std::collections` lines of the copied sources are rewritten; function bodies are those of /repo.",
 }
 
+CLAIMS["C25"] = {
+    "technique": _T + " (announce.rs shadowed into a shim crate with bit-mask sets): fully symbolic configuration + k symbolic sync results against a reference target predicate",
+    "text": "For every local node, every choice of preferred / synced / unsynced sets over 4 nodes, every replication factor and every sequence of up to 3 sync results (local node, unknown nodes and repeats included) the solver shows that the announcer reports success exactly when the reference target is reached (computed over distinct nodes), never counts or hands out the local node, reports progress over distinct nodes, and that timed_out reports success exactly then. Announcer only: the Fetcher is outside.",
+    "note": "Trusted: Kani/CBMC; the bit-mask container model; NodeId abstracted to a 1-byte id. Function bodies are those of /repo's announce.rs and sync.rs.",
+}
+
 NOT_APPLICABLE = {
     "C01": "post-fetch refdb contents vs signed refs: decided inside FetchState::run over gix transport, libgit2 ref transactions and ed25519 signatures (FFI / curve arithmetic) - not encodable for CBMC/SMT within reach (DESIGN §7)",
     "C02": "threshold gate and Behind/Diverged handling are statements inside FetchState::run between git I/O calls; no function boundary to drive symbolically (DESIGN §7)",
